@@ -96,6 +96,7 @@ CheckOracle(fn, v) ==
   CASE fn.o = "always"     -> TRUE
     [] fn.o = "never"      -> FALSE
     [] fn.o = "str_even"   -> Len(v["$s"]) % 2 = 0
+    [] fn.o = "str_len_le" -> Len(v["$s"]) <= fn.n
     [] fn.o = "str_has"    -> \E i \in 1..Len(v["$s"]) : v["$s"][i] = fn.c
     [] fn.o = "len_le"     -> Len(v[fn.f]) <= fn.n
     [] fn.o = "is_some"    -> v[fn.f]["$"] = "Some"
